@@ -80,7 +80,7 @@ def get_forall_names(t, svar=True):
 
     """
     def helper(t):
-        if t.is_forall():
+        if t.is_forall() and t.arg.is_abs():
             return [t.arg.var_name] + helper(t.arg.body)
         else:
             return []
@@ -100,7 +100,7 @@ def strip_all_implies(t, names, svar=True):
     substituted for v_1, ..., v_k.
 
     """
-    if t.is_forall():
+    if t.is_forall() and t.arg.is_abs():
         assert len(names) > 0, "strip_all_implies: not enough names input."
         assert isinstance(names[0], str), "strip_all_implies: names must be strings."
         if svar:
